@@ -433,3 +433,24 @@ mod tests {
   }
 }
 
+
+// Verification hooks (no behaviour change); compiled only with --cfg ellbur_totalmapper_verif
+#[cfg(ellbur_totalmapper_verif)]
+pub mod verif {
+  pub fn extract_keyboards(text: &str) -> Vec<(String, String)> {
+    super::extract_keyboards_from_proc_bus_input_devices(text, false)
+      .into_iter().map(|d| (d.sysfs_path, d.name)).collect()
+  }
+  
+  pub fn extract_input_devices(text: &str) -> Vec<(String, String, bool)> {
+    super::extract_input_devices_from_proc_bus_input_devices(text, false)
+      .into_iter().map(|d| (d.sysfs_path, d.name, d.is_keyboard)).collect()
+  }
+  
+  pub fn parse_mask_hex(hex: &str) -> Option<Vec<i32>> {
+    match super::parse_mask_hex(hex) {
+      Err(_) => None,
+      Ok(s) => { let mut v: Vec<i32> = s.into_iter().collect(); v.sort(); Some(v) }
+    }
+  }
+}
